@@ -13,6 +13,8 @@ GENC = os.path.join(SPEC, "Gen_Stream.cfg")
 TD = os.path.join(SPEC, "Trace_Decode.tla")
 TDC = os.path.join(SPEC, "Trace_Decode.cfg")
 APIS = ["byte-le", "byte-be", "sample", "iter", "channel", "stream", "verify", "frameiter", "seektable"]
+# C04 only: seeking readers over untrusted bytes (C03 judges data, and seeks on valid files are C06's)
+SEEK_APIS = ["seek-sample", "seek-byte", "seek-channel"]
 
 
 class Incident(int):
@@ -141,6 +143,7 @@ def run_c03(pid):
     rnd = random.Random(seed() * 7 + 3)
     n = 700 if t == "quick" else 8000
     plan_list = [P.stream_plan(rnd, i + 1, small=(t == "quick" or i % 10 != 0)) for i in range(n)]
+    plan_list += P.directed_valid(n + 100)
     gen = generate(wd, plan_list, "valid")
     by_plan = {p["id"]: p for p in plan_list}
     items = []
@@ -277,9 +280,22 @@ def run_c04(pid):
     _cl, _encs, damaged = MC.damaged_metadata_sections(wd, t, rnd)
     if t == "quick":
         keep = [d for d in damaged if d[0].startswith("valid:")]
-        rest = [d for d in damaged if not d[0].startswith("valid:")]
+        directed = [d for d in damaged if d[0] == "cuesheet-text-field"]
+        rest = [d for d in damaged if not d[0].startswith("valid:") and d[0] != "cuesheet-text-field"]
         rnd.shuffle(rest)
-        damaged = keep[:60] + rest[:700]
+        rnd.shuffle(directed)
+        damaged = keep[:60] + directed[:120] + rest[:700]
+    # seek tables whose points carry extreme byte / sample offsets (a seek adds them to the position of the first frame)
+    for cls, b in list(damaged):
+        if cls.startswith("valid:seektable") and len(b) >= 4 + 38 + 4 + 18:
+            p0 = 4 + 38 + 4
+            npts = (len(b) - p0) // 18
+            for field, width in ((0, 8), (8, 8)):
+                for val in ((1 << 64) - 1, (1 << 64) - 4, 1 << 63, 1 << 32, (1 << 63) - 1):
+                    for pt in sorted({0, npts - 1}):
+                        bb = list(b)
+                        bb[p0 + 18 * pt + field:p0 + 18 * pt + field + width] = list(val.to_bytes(8, "big"))
+                        damaged.append(("seektable-offsets", bb))
     tail = next((it["bytes"][it["metaLen"]:] for it in items if it["class"] == "tiny-block-po" and it["bytes"]), [])
     mid = 3000000
     for cls, b in damaged:
@@ -312,7 +328,7 @@ def run_c04(pid):
     counts = {}
     for profile in ("release", "checked"):
         slim_items = [{k: it[k] for k in it if k not in ("plan", "pcm")} for it in items]
-        traces, timeouts = decode_items(wd, slim_items, "mal", profile, APIS, log_data=False)
+        traces, timeouts = decode_items(wd, slim_items, "mal", profile, APIS + SEEK_APIS, log_data=False)
         for h in timeouts:
             it = by_id[h]
             v.violation("%s %s class=%s profile=%s" % (pid, h.kind, it["class"], profile), "decoding item %d (%s) %s" % (h, it["class"], h.what),
@@ -385,6 +401,17 @@ def run_c17(pid):
                                    "frames": [{"bs": bs, "subs": [{"type": "fixed", "order": order, "method": 0, "po": 0, "params": [["rice", 2]], "ov": {"po": po}}]}],
                                    "pcm": [[(i * 7) % 11 - 5 for i in range(bs)]]})
     mplans += P.directed_malformed(k)
+    # coded frame / sample numbers at the edges of every length class of the UTF-8-like coding (1 .. 6 bytes, up to 2^31 - 1)
+    k += 1000
+    for num in (0x7F, 0x80, 0x7FF, 0x800, 0xFFFF, 0x10000, 0x1FFFFF, 0x200000, 0x3FFFFFF, 0x4000000, 0x3FFFFFFF, 0x40000000, 0x7FFFFFFE, 0x7FFFFFFF):
+        for variable in (False, True):
+            k += 1
+            q = P.stream_plan(rnd, k, small=True, nframes=1, variable=variable, size_pool=[16, 20])
+            q["frames"][0]["number"] = num
+            q["frames"][0]["overlong"] = 0
+            q["selfcheck"] = False
+            q["class"] = "number-edge"
+            mplans.append(q)
     byp = {p["id"]: p for p in vplans + mplans}
     for g in generate(wd, vplans + mplans, "c17"):
         p = byp[g["id"]]
